@@ -44,6 +44,7 @@ struct env {
     uint8_t keyfill;          /* key byte i = keyfill + i for the 32-byte ("key") salt */
     int protect_key;          /* C04: make the key page inaccessible once the KDF returns */
     int repaint;              /* E4: callbacks repaint the stack below their frame */
+    int alloc_fill_set; uint8_t alloc_fill;   /* fill byte of fresh blocks (default 0xDD) */
     /* logs */
     unsigned long n_rand, n_time, n_alloc, n_free, n_mz, n_kdf, n_nfc, n_nfkd;
     unsigned long n_libc_malloc, n_libc_free, n_libc_time;
